@@ -191,6 +191,9 @@ func (c *Check) Finish() int {
 	sort.SliceStable(c.Obls, func(i, j int) bool { return c.Obls[i].Key() < c.Obls[j].Key() })
 
 	evDir := filepath.Join(c.verifRoot, "evidence")
+	if v := os.Getenv("PEGSA_EVIDENCE"); v != "" {
+		evDir = v // self-tests on scratch copies must not overwrite the real evidence
+	}
 	rpDir := filepath.Join(evDir, "replay")
 	os.MkdirAll(rpDir, 0o755)
 	// remove stale replay files of this property
